@@ -789,9 +789,24 @@ func runC04(c *Ctx) {
 	}
 }
 
-// loopHeaderOf returns the innermost loop header dominating b (a block with a back edge from a block it dominates).
+// loopHeaderOf returns the innermost loop header h such that b belongs to h's
+// loop: h dominates b, h has a back edge, and b can reach h again.
 func loopHeaderOf(b *ssa.BasicBlock) *ssa.BasicBlock {
+	reach := map[*ssa.BasicBlock]bool{}
+	var walk func(x *ssa.BasicBlock)
+	walk = func(x *ssa.BasicBlock) {
+		for _, s := range x.Succs {
+			if !reach[s] {
+				reach[s] = true
+				walk(s)
+			}
+		}
+	}
+	walk(b)
 	for cur := b; cur != nil; cur = cur.Idom() {
+		if !reach[cur] {
+			continue
+		}
 		for _, p := range cur.Preds {
 			if cur.Dominates(p) {
 				return cur
